@@ -4,7 +4,7 @@ import random
 
 from .. import core, flow, corr_bm, oracles_bm as ob
 
-PROOFS = ['Tsv.Proofs.C03Alg', 'Tsv.Proofs.C03Reverse', 'Tsv.Proofs.BMCore', 'Tsv.Proofs.C05', 'Tsv.Proofs.C03Model', 'Tsv.Proofs.C03ModelEx']
+PROOFS = ['Tsv.Proofs.C03Alg', 'Tsv.Proofs.C03Reverse', 'Tsv.Proofs.BMCore', 'Tsv.Proofs.C05', 'Tsv.Proofs.C03Model', 'Tsv.Proofs.C03ModelEx', 'Tsv.Proofs.BMPoints']
 TRUSTED = ["Lean 4.33 kernel + Mathlib", "vlib/sym.py tracer and vlib/emit.py emitter (validated each run: real code vs trace, "
            "Lean Float vs trace, bit for bit)", "IEEE rounding of the float evaluation is not modelled (field identities)",
            "C03Model.chen_W_any_history / chen_U_any_history: additivity of W and Chen's relation for U for every query history in the "
